@@ -1,20 +1,199 @@
-import Sif.Spec.C16
+import Sif.Proofs.C16
 /-
-  C16 — the relayer translates bridge events faithfully in both directions.  Property theorems only.
+  C16 — the relayer translates bridge events faithfully in both directions.
+  Property theorems only (helper lemmas in Sif/Proofs/C16.lean).
+
+  Quantifiers: every event field value — arbitrary recipient bytes, symbols (byte strings), chain ids,
+  nonces and amounts (any integer), any 20-byte addresses, any claim type; every attribute list (any keys,
+  any values, any order, any multiplicity); every symbol table; every behaviour of the code that is not
+  modelled (`Env`: bech32 decoding, the Unicode path of `strings.ToLower`).  No bounds.
 -/
 namespace Sif.Props.C16
-open Sif Sif.Relayer Sif.Spec.C16
+open Sif Sif.Relayer Sif.Spec.C16 Sif.Proofs.C16
 
-/-- the burn symbol is the attribute value minus exactly the leading pegged prefix -/
-theorem stripPrefixC_iff (v s : Str) : stripPrefixC v = some s ↔ v = 'c' :: s := by
-  unfold stripPrefixC
-  split
-  · constructor
-    · intro h; cases h; rfl
-    · intro h; cases h; rfl
-  · rename_i hne
-    constructor
-    · intro h; cases h
-    · intro h; exact absurd h (by intro h; exact hne _ h)
+/-! ### Ethereum → Sifchain -/
+
+/-- Field fidelity: a claim produced from an event carries the event's chain id and nonce (whenever they
+    fit int64), sender, recipient (as decoded), token and bridge contract, amount, claim type, the
+    validator, and the symbol lower-cased (lock) / mapped through the symbol table (burn). -/
+theorem eth_claim_faithful (env : Env) (val : Str) (ev : EthEvent) (c : Claim)
+    (h : ethToClaim env val ev = .ok c) : claimFaithful env val ev c = true :=
+  ethToClaim_faithful env val ev c h
+
+/-- Malformed events are rejected, well-formed ones translated: the function returns a claim exactly for
+    events whose recipient decodes to a non-empty address, whose amount fits 256 bits and which do not
+    lock "eth" with a non-null token; everything else is an error (or, for a > 256-bit amount, a panic). -/
+theorem eth_claim_verdict (env : Env) (val : Str) (ev : EthEvent) :
+    (ethWellFormed env ev = true → ∃ c, ethToClaim env val ev = .ok c) ∧
+    (ethWellFormed env ev = false → ∃ e, ethToClaim env val ev = .error e) :=
+  ethToClaim_verdict env val ev
+
+/-- Narrowing: `big.Int.Int64()` does not wrap on anything representable — in particular chain ids and
+    nonces in `[0, 2^63)`. -/
+theorem narrowing_no_wrap (i : Int) (h0 : 0 ≤ i) (h1 : i < 2 ^ 63) : int64OfBig i = i :=
+  int64OfBig_id i (by omega) h1
+
+/-- … and what it does otherwise still lands in int64 (the wrap is the Go conversion's, stated) -/
+theorem narrowing_range (i : Int) : -(2 ^ 63 : Int) ≤ int64OfBig i ∧ int64OfBig i < 2 ^ 63 :=
+  int64OfBig_range i
+
+/-- ASCII symbols of a lock are lower-cased byte by byte (the non-ASCII path is `Env.lower`). -/
+theorem lock_symbol_ascii (env : Env) (ev : EthEvent) (h : ev.claimType = ctLock)
+    (hascii : ev.symbol.all isAsciiC = true) : claimSymbol env ev = ev.symbol.map lowerC := by
+  rw [claimSymbol_lock env ev h]; simp [toLower, hascii]
+
+/-- Claim identity: two claims of the same chain whose senders have the width of an address text have the
+    same prophecy id only if they have the same nonce and the same sender. -/
+theorem claimId_injective (c₁ c₂ : Claim) (hc : c₁.chainId = c₂.chainId)
+    (h1 : c₁.sender.length = 42) (h2 : c₂.sender.length = 42) (hid : claimId c₁ = claimId c₂) :
+    c₁.nonce = c₂.nonce ∧ c₁.sender = c₂.sender :=
+  Sif.Proofs.C16.claimId_injective c₁ c₂ hc h1 h2 hid
+
+/-- the judge's Boolean for the identity clause holds for the model's ids -/
+theorem claimId_judge (c₁ c₂ : Claim) : idInjective c₁ c₂ (claimId c₁) (claimId c₂) = true :=
+  idInjective_holds c₁ c₂
+
+/-- two different events of one bridge (same chain id, nonces in the envelope, 20-byte senders) never
+    yield the same claim identity -/
+theorem distinct_events_distinct_ids (env : Env) (val : Str) (e₁ e₂ : EthEvent) (c₁ c₂ : Claim)
+    (h₁ : ethToClaim env val e₁ = .ok c₁) (h₂ : ethToClaim env val e₂ = .ok c₂)
+    (hchain : e₁.chainId = e₂.chainId)
+    (hn₁ : 0 ≤ e₁.nonce ∧ e₁.nonce < 2 ^ 63) (hn₂ : 0 ≤ e₂.nonce ∧ e₂.nonce < 2 ^ 63)
+    (hs₁ : e₁.sender.length = 40) (hs₂ : e₂.sender.length = 40)
+    (hid : claimId c₁ = claimId c₂) : e₁.nonce = e₂.nonce ∧ e₁.sender = e₂.sender := by
+  obtain ⟨_, _, _, _, _, rfl⟩ := ethToClaim_ok env val e₁ c₁ h₁
+  obtain ⟨_, _, _, _, _, rfl⟩ := ethToClaim_ok env val e₂ c₂ h₂
+  have := Sif.Proofs.C16.claimId_injective _ _ (by simp [hchain]) (by simp [addrString, hs₁]) (by simp [addrString, hs₂]) hid
+  simp only [addrString] at this
+  rw [int64OfBig_id _ (by omega) hn₁.2, int64OfBig_id _ (by omega) hn₂.2] at this
+  exact ⟨this.1, by simpa using this.2⟩
+
+/-! ### Sifchain → Ethereum -/
+
+/-- Field fidelity: an accepted lock/burn message carries the (last) sender attribute, the parsed (last)
+    sequence, receiver and amount attributes, and for locks the symbol mapped through the table.
+    Duplicated attributes: the last one wins — that is what the code does, stated. -/
+theorem cosmos_msg_faithful (kind : Nat) (env : Env) (attrs : List Attr) (m : CosmosMsg)
+    (h : cosmosToMsg kind env attrs = .ok m) : msgFaithful kind env attrs m = true :=
+  cosmosToMsg_faithful kind env attrs m h
+
+/-- Malformed (incomplete) attribute lists are rejected, whatever else they contain: an accepted list has
+    all five attributes.  (Fix F6b; the pinned code counted repeated attributes.) -/
+theorem incomplete_rejected (kind : Nat) (env : Env) (attrs : List Attr) (m : CosmosMsg)
+    (h : cosmosToMsg kind env attrs = .ok m) : completeOK attrs true = true := by
+  simpa [completeOK] using cosmosToMsg_complete kind env attrs m h
+
+/-- the same, contrapositive form: a list missing one of the five attributes is an error -/
+theorem incomplete_is_error (kind : Nat) (env : Env) (attrs : List Attr) (hinc : complete attrs = false) :
+    ∃ e, cosmosToMsg kind env attrs = .error e := by
+  cases h : cosmosToMsg kind env attrs with
+  | error e => exact ⟨e, rfl⟩
+  | ok m => have := cosmosToMsg_complete kind env attrs m h; rw [hinc] at this; cases this
+
+/-- Burn symbol, general form: whatever the attribute list, an accepted burn's symbol is the last symbol
+    attribute with exactly the leading "c" removed. -/
+theorem burn_symbol_prefix_removed (env : Env) (attrs : List Attr) (m : CosmosMsg)
+    (h : cosmosToMsg kBurn env attrs = .ok m) : burnSymbolOK attrs true m.symbol = true :=
+  cosmosToMsg_burnSymbol env attrs m h
+
+/-- `burn_symbol_strips_prefix` (fix F6), in full: after any attributes that supply sender, sequence,
+    receiver and amount, a burn event with symbol attribute `sym` is translated with symbol `s` if and only
+    if `sym = "c" ++ s`.  In particular symbols that do not *start* with the prefix are refused ("xcy",
+    "usdc"), and nothing but the first byte is removed ("cc" ↦ "c"). -/
+theorem burn_symbol_strips_prefix (env : Env) (pre : List Attr) (acc : Acc) (sym s : Str)
+    (hpre : scanAttrs kBurn env pre {} = .ok acc)
+    (h1 : acc.sSender = true) (h2 : acc.sSeq = true) (h3 : acc.sRecv = true) (h4 : acc.sAmt = true) :
+    (∃ m, cosmosToMsg kBurn env (pre ++ [⟨kSymbol, sym⟩]) = .ok m ∧ m.symbol = s) ↔ sym = 'c' :: s :=
+  burn_symbol_iff env pre acc sym s hpre h1 h2 h3 h4
+
+/-- the pinned code's symbol function was not that: it accepted and mangled unprefixed symbols -/
+example : afterFirstC (str "xcy") = some (str "y") ∧ afterFirstC (str "usdc") = some [] ∧
+    stripPrefixC (str "xcy") = none ∧ stripPrefixC (str "usdc") = none := by decide
+
+/-- Decimal texts round-trip through the two integer parsers the function uses (`SetString(·, 10)` for the
+    sequence, `sdk.NewIntFromString` = `SetString(·, 0)` + 256-bit check for the amount). -/
+theorem decimal_roundtrip (i : Int) :
+    parseBig false (decInt i) = some i ∧ (bitLen i.natAbs ≤ 256 → parseSdkInt (decInt i) = some i) :=
+  ⟨parseBig_decInt false i, parseSdkInt_decInt i⟩
+
+/-! ### composition with the chain's own emitters -/
+
+/-- A lock event emitted by the chain for message `b` (sender sequence `seq`) is translated, and the
+    translation is `b`'s sender, that sequence, receiver, amount, and the symbol through the table. -/
+theorem compose_lock (env : Env) (b : BridgeMsg) (seq : Nat) (r : Str)
+    (hr : parseHexAddr b.receiver = some r) (hbits : bitLen b.amount.natAbs ≤ 256) :
+    ∃ m, cosmosToMsg kLock env (emitAttrs b seq) = .ok m ∧ composeOK kLock env b seq m = true := by
+  refine ⟨_, compose_scan kLock env b seq r hr hbits (sifToEth env.table b.symbol) (by simp [symbolStep]), ?_⟩
+  have : ¬ (kLock = kBurn) := by decide
+  simp [composeOK, hr, this]
+
+/-- A burn event emitted by the chain for a prefixed token `"c" ++ s` is translated to symbol `s` with the
+    same sender, sequence, receiver and amount. -/
+theorem compose_burn (env : Env) (b : BridgeMsg) (seq : Nat) (r s : Str)
+    (hr : parseHexAddr b.receiver = some r) (hbits : bitLen b.amount.natAbs ≤ 256)
+    (hsym : b.symbol = 'c' :: s) :
+    ∃ m, cosmosToMsg kBurn env (emitAttrs b seq) = .ok m ∧ composeOK kBurn env b seq m = true := by
+  have hnl : ¬ (kBurn = kLock) := by decide
+  refine ⟨_, compose_scan kBurn env b seq r hr hbits s (by simp [symbolStep, hnl, hsym, stripPrefixC]), ?_⟩
+  simp [composeOK, hr, hnl, hsym]
+
+/-- the judge's acceptance clause: every emitted lock, and every emitted burn of a prefixed token, is accepted -/
+theorem compose_accepts (env : Env) (kind : Nat) (b : BridgeMsg) (seq : Nat) (r : Str)
+    (hk : kind = kLock ∨ kind = kBurn)
+    (hr : parseHexAddr b.receiver = some r) (hbits : bitLen b.amount.natAbs ≤ 256) :
+    composeAcceptOK kind b.symbol (match cosmosToMsg kind env (emitAttrs b seq) with | .ok _ => true | .error _ => false) = true := by
+  rcases hk with rfl | rfl
+  · obtain ⟨m, hm, _⟩ := compose_lock env b seq r hr hbits
+    simp [composeAcceptOK, hm]
+  · cases hs : b.symbol with
+    | nil => simp [composeAcceptOK, startsWithC]
+    | cons c s =>
+      by_cases hc : c = 'c'
+      · subst hc
+        obtain ⟨m, hm, _⟩ := compose_burn env b seq r s hr hbits hs
+        simp [composeAcceptOK, hm]
+      · have : startsWithC (c :: s) = false := by
+          unfold startsWithC
+          split
+          · rename_i heq; cases heq; exact absurd rfl hc
+          · rfl
+        simp [composeAcceptOK, this]
+
+/-! ### non-vacuity -/
+
+/-- a concrete lock event: recipient decodes, symbol "CETH" is lower-cased, nonce and chain id copied -/
+example :
+    let env : Env := { bech32 := fun _ => some (str "addr"), bech32Val := fun _ => none, lower := id, table := [] }
+    let ev : EthEvent := { to := str "cosmos1…", symbol := str "CETH", chainId := 3, value := 5, nonce := 19, claimType := ctLock,
+                           bridge := List.replicate 40 'a', sender := List.replicate 40 'b', token := List.replicate 40 '0' }
+    ethWellFormed env ev = true ∧
+    (match ethToClaim env (str "val") ev with
+     | .ok c => decide (c.symbol = str "ceth" ∧ c.nonce = 19 ∧ c.chainId = 3 ∧ c.amount = 5) && claimFaithful env (str "val") ev c
+     | .error _ => false) = true := by decide
+
+/-- concrete attribute lists: a well-formed burn of "ceth" gives "eth"; "xcy" is refused; five symbol
+    attributes and nothing else are refused; a duplicated amount takes the last value (base-0 parse: 0x10 = 16) -/
+example :
+    let env : Env := { bech32 := fun _ => none, bech32Val := fun _ => none, lower := id, table := [] }
+    let base : List Attr := [⟨kCosmosSender, str "sif1abc"⟩, ⟨kCosmosSenderSequence, str "7"⟩,
+      ⟨kEthereumReceiver, '0' :: 'x' :: List.replicate 40 'A'⟩, ⟨kAmount, str "5"⟩]
+    (match cosmosToMsg kBurn env (base ++ [⟨kSymbol, str "ceth"⟩]) with
+     | .ok m => decide (m.symbol = str "eth" ∧ m.seq = some 7 ∧ m.amount = some 5 ∧ m.receiver = List.replicate 40 'a')
+     | .error _ => false) = true ∧
+    (match cosmosToMsg kBurn env (base ++ [⟨kSymbol, str "xcy"⟩]) with
+     | .error e => decide (e = .err .notPrefixed) | .ok _ => false) = true ∧
+    (match cosmosToMsg kLock env (List.replicate 5 ⟨kSymbol, str "a"⟩) with
+     | .error e => decide (e = .err .incomplete) | .ok _ => false) = true ∧
+    (match cosmosToMsg kLock env (base ++ [⟨kSymbol, str "rowan"⟩, ⟨kAmount, str "0x10"⟩]) with
+     | .ok m => decide (m.amount = some 16)
+     | .error _ => false) = true := by decide
+
+/-- observation O1 (recorded, outside the property): chain id and nonce are concatenated without a
+    separator, so across *different* chain ids identities can coincide -/
+example :
+    let mk (chain nonce : Int) : Claim :=
+      { chainId := chain, bridge := [], nonce := nonce, symbol := [], token := [], sender := List.replicate 42 'x',
+        validator := [], receiver := [], amount := 0, claimType := 0 }
+    claimId (mk 1 23) = claimId (mk 12 3) := by decide
 
 end Sif.Props.C16
